@@ -493,6 +493,20 @@ Proof.
   intros H Hi. unfold labels_in in H. rewrite Forall_forall in H. apply H. now apply cls_in.
 Qed.
 
+(* unlabeled samples allowed: every label is -1 or a class in [0, C) *)
+Definition labels_in_u (classes : list Z) (C : Z) : Prop := Forall (fun c => -1 <= c < C) classes.
+
+Lemma labels_in_u_of classes C : labels_in classes C -> labels_in_u classes C.
+Proof. unfold labels_in, labels_in_u. rewrite !Forall_forall. intros H x Hx. specialize (H x Hx). lia. Qed.
+
+Lemma labels_in_u_cls classes C i : labels_in_u classes C -> 0 <= i < zlen classes -> -1 <= cls classes i < C.
+Proof.
+  intros H Hi. unfold labels_in_u in H. rewrite Forall_forall in H. apply H. now apply cls_in.
+Qed.
+
+Lemma labels_in_u_neg classes C : labels_in_u classes C -> C < 0 -> classes = [].
+Proof. intros H HC. destruct classes. reflexivity. inversion H. lia. Qed.
+
 Definition blocks (classes : list Z) (k : Z) : list Z := concat (map (fun c => positions c classes) (zrange 0 k)).
 
 Lemma blocks_snoc classes k : 0 <= k -> blocks classes (k + 1) = blocks classes k ++ positions k classes.
@@ -555,15 +569,61 @@ Proof.
       apply IHc in Hx. lia. apply In_positions in Hx. lia.
 Qed.
 
+Lemma In_blocks classes k y : In y (blocks classes k) -> 0 <= cls classes y < k.
+Proof.
+  unfold blocks. intros H. apply in_concat in H. destruct H as (l & Hl & Hy).
+  apply in_map_iff in Hl. destruct Hl as (c & <- & Hc). apply In_zrange in Hc. apply In_positions in Hy. lia.
+Qed.
+
+(* range(-1, C): the unlabeled samples, then class 0, 1, ... *)
+Lemma sort_by_class_unfold classes C : 0 <= C -> sort_by_class classes C = positions (-1) classes ++ blocks classes C.
+Proof. intros. unfold sort_by_class, blocks. rewrite zrange_cons by lia. reflexivity. Qed.
+
+Lemma blocks_u_perm classes C :
+  labels_in_u classes C -> Permutation (positions (-1) classes ++ blocks classes C) (all_ids classes).
+Proof.
+  intros H. destruct (Z.leb_spec 0 C).
+  - pose proof (blocks_perm_k classes (Z.to_nat C)) as Hb. rewrite Z2Nat.id in Hb by lia.
+    rewrite positions_filter. etransitivity. apply Permutation_app_head, Hb.
+    set (f := fun i => (cls classes i =? -1) || ((0 <=? cls classes i) && (cls classes i <? C))).
+    assert (E : filter f (all_ids classes) = all_ids classes).
+    { apply filter_all. intros x Hx. apply In_zrange in Hx.
+      pose proof (labels_in_u_cls classes C x H Hx). unfold f. lia. }
+    apply Permutation_trans with (filter f (all_ids classes)); [|now rewrite E].
+    symmetry. apply filter_split_perm; intros; unfold f; lia.
+  - rewrite (labels_in_u_neg _ _ H) by lia. unfold blocks. rewrite zrange_nil by lia. constructor.
+Qed.
+
+Lemma sort_by_class_u_l classes C :
+  labels_in_u classes C ->
+  Permutation (sort_by_class classes C) (all_ids classes) /\
+  StronglySorted (before classes) (sort_by_class classes C).
+Proof.
+  intros H. destruct (Z.leb_spec 0 C).
+  - rewrite sort_by_class_unfold by lia. split. now apply blocks_u_perm.
+    apply sorted_app.
+    + apply sorted_impl_in with (R := Z.lt). apply positions_sorted.
+      intros x y Hx Hy Hlt. apply In_positions in Hx. apply In_positions in Hy. right. lia.
+    + pose proof (blocks_sorted_k classes (Z.to_nat C)) as [Hs _]. rewrite Z2Nat.id in Hs by lia. exact Hs.
+    + intros x y Hx Hy. apply In_positions in Hx. apply In_blocks in Hy. left. lia.
+  - rewrite (labels_in_u_neg _ _ H) by lia. unfold sort_by_class. rewrite zrange_nil by lia. split; constructor.
+Qed.
+
 Lemma sort_by_class_l classes C :
   labels_in classes C ->
   Permutation (sort_by_class classes C) (all_ids classes) /\
   StronglySorted (before classes) (sort_by_class classes C).
+Proof. intros H. apply sort_by_class_u_l. now apply labels_in_u_of. Qed.
+
+(* a fully labelled dataset: the selection is the concatenation of the class blocks 0 .. C-1 *)
+Lemma sort_by_class_labelled classes C : labels_in classes C -> sort_by_class classes C = blocks classes C.
 Proof.
-  intros H. split. apply (blocks_perm classes C H).
+  intros H. assert (E : positions (-1) classes = []).
+  { rewrite positions_filter. apply filter_none. intros x Hx. apply In_zrange in Hx.
+    pose proof (labels_in_cls classes C x H Hx). lia. }
   destruct (Z.leb_spec 0 C).
-  - rewrite <- (Z2Nat.id C) by lia. apply blocks_sorted_k.
-  - unfold sort_by_class. rewrite zrange_nil by lia. constructor.
+  - rewrite sort_by_class_unfold by lia. now rewrite E.
+  - unfold sort_by_class, blocks. now rewrite !zrange_nil by lia.
 Qed.
 
 (* the relation is a strict total order on sample ids, so the sorted permutation is unique:
@@ -589,11 +649,26 @@ Proof. destruct (Z.leb_spec 0 c). now rewrite Z.max_r by lia. rewrite Z.max_l by
 Definition counts_of (classes : list Z) (C' : Z) : list Z := map (fun c => count_of c classes) (zrange 0 C').
 Definition mxc (classes : list Z) (C' : Z) : Z := zmax (counts_of classes C').
 
-Lemma class_counts_some classes C :
-  labels_in classes (n_classes_eff C) -> class_counts classes C = Some (counts_of classes (n_classes_eff C)).
+Lemma class_counts_some_u classes C :
+  labels_in_u classes (n_classes_eff C) -> class_counts classes C = Some (counts_of classes (n_classes_eff C)).
 Proof.
   intros H. unfold class_counts. rewrite (proj2 (forallb_forall _ _)). reflexivity.
-  unfold labels_in in H. rewrite Forall_forall in H. intros x Hx. specialize (H x Hx). lia.
+  unfold labels_in_u in H. rewrite Forall_forall in H. intros x Hx. specialize (H x Hx). lia.
+Qed.
+
+Lemma class_counts_some classes C :
+  labels_in classes (n_classes_eff C) -> class_counts classes C = Some (counts_of classes (n_classes_eff C)).
+Proof. intros H. apply class_counts_some_u. now apply labels_in_u_of. Qed.
+
+(* the assertion of get_class_counts: exactly the labels -1 and 0 .. n_classes-1 are accepted *)
+Lemma class_counts_none_iff classes C :
+  0 <= C -> (class_counts classes C = None <-> ~ labels_in_u classes (n_classes_eff C)).
+Proof.
+  intros HC. assert (0 <= n_classes_eff C) by (unfold n_classes_eff; destruct (C =? 1); lia).
+  split.
+  - intros E H0. rewrite (class_counts_some_u _ _ H0) in E. discriminate.
+  - intros H'. unfold class_counts. cbv zeta. destruct (forallb _ classes) eqn:E; [|reflexivity].
+    exfalso. apply H'. apply Forall_forall. intros x Hx. rewrite forallb_forall in E. specialize (E x Hx). cbv beta in *. lia.
 Qed.
 
 Lemma class_counts_inv classes C counts :
@@ -836,31 +911,34 @@ Qed.
 Lemma oversample_exact_eq classes C counts :
   class_counts classes C = Some counts ->
   oversample true classes C =
-  if mxc classes (n_classes_eff C) =? 0 then None
-  else Some (concat (map (exact_block_val classes (mxc classes (n_classes_eff C))) (zrange 0 (n_classes_eff C)))).
+  Some (concat (map (exact_block_val classes (mxc classes (n_classes_eff C))) (zrange 0 (n_classes_eff C)))
+        ++ positions (-1) classes).
 Proof.
   intros H. unfold oversample. rewrite H. apply class_counts_inv in H. subst counts.
   cbv zeta. fold (mxc classes (n_classes_eff C)).
-  destruct (mxc classes (n_classes_eff C) =? 0). reflexivity.
   rewrite ids_of_counts. unfold counts_of. rewrite combine_map_self, map_map.
-  apply concat_opt_map_some. intros. apply exact_block_eq. apply zmax_nonneg.
+  erewrite concat_opt_map_some. reflexivity.
+  intros. apply exact_block_eq. apply zmax_nonneg.
 Qed.
 
+(* the constructor returns whenever get_class_counts accepts the labels (absent classes,
+   unlabeled samples, even no labelled sample at all) *)
 Lemma exact_terminates_l classes C counts :
-  class_counts classes C = Some counts ->
-  (oversample true classes C = None <-> mxc classes (n_classes_eff C) = 0).
+  class_counts classes C = Some counts -> exists out, oversample true classes C = Some out.
+Proof. intros H. rewrite (oversample_exact_eq _ _ _ H). eauto. Qed.
+
+Lemma oversample_none_iff ex classes C :
+  0 <= C -> (oversample ex classes C = None <-> ~ labels_in_u classes (n_classes_eff C)).
 Proof.
-  intros H. rewrite (oversample_exact_eq _ _ _ H).
-  destruct (Z.eqb_spec (mxc classes (n_classes_eff C)) 0); split; intros; congruence.
+  intros HC. rewrite <- class_counts_none_iff by assumption. destruct (class_counts classes C) as [counts|] eqn:E.
+  - destruct ex. rewrite (oversample_exact_eq _ _ _ E). split; discriminate.
+    rewrite (oversample_multiply_eq _ _ _ E). split; discriminate.
+  - unfold oversample. rewrite E. tauto.
 Qed.
 
 Lemma exact_succeeds_l classes C :
-  classes <> [] -> labels_in classes (n_classes_eff C) -> exists out, oversample true classes C = Some out.
-Proof.
-  intros Hne Hl. pose proof (class_counts_some classes C Hl) as Hcc.
-  rewrite (oversample_exact_eq _ _ _ Hcc). pose proof (mxc_pos classes _ Hne Hl).
-  destruct (Z.eqb_spec (mxc classes (n_classes_eff C)) 0). lia. eauto.
-Qed.
+  labels_in_u classes (n_classes_eff C) -> exists out, oversample true classes C = Some out.
+Proof. intros Hl. exact (exact_terminates_l _ _ _ (class_counts_some_u classes C Hl)). Qed.
 
 Lemma In_exact_block_val classes mx c x : In x (exact_block_val classes mx c) -> In x (positions c classes).
 Proof.
@@ -922,9 +1000,11 @@ Lemma oversample_exact_class_occ classes C out c :
   class_occ classes c out = if count_of c classes =? 0 then 0 else mxc classes (n_classes_eff C).
 Proof.
   intros H Hc. destruct (oversample_some_counts _ _ _ _ H) as (counts & Hcc).
-  rewrite (oversample_exact_eq _ _ _ Hcc) in H. destruct (_ =? 0) in H. discriminate.
+  rewrite (oversample_exact_eq _ _ _ Hcc) in H.
   inversion H; subst out; clear H.
-  rewrite class_occ_cntf, (cntf_blocks_single _ _ _ c), <- class_occ_cntf; auto.
+  rewrite class_occ_cntf, cntf_app, <- (class_occ_cntf classes c (positions _ _)), class_occ_positions.
+  destruct (Z.eqb_spec c (-1)). lia. rewrite Z.add_0_r.
+  rewrite (cntf_blocks_single _ _ _ c), <- class_occ_cntf; auto.
   - rewrite class_occ_exact_block_val by apply zmax_nonneg. rewrite Z.eqb_refl.
     destruct (count_of c classes =? 0); reflexivity.
   - intros c' Hcr Hne. rewrite <- class_occ_cntf, class_occ_exact_block_val by apply zmax_nonneg.
@@ -938,11 +1018,13 @@ Lemma oversample_exact_occ classes C out i :
   1 <= q /\ q <= occ i out <= q + 1.
 Proof.
   intros H Hi Hc q. destruct (oversample_some_counts _ _ _ _ H) as (counts & Hcc).
-  rewrite (oversample_exact_eq _ _ _ Hcc) in H. destruct (_ =? 0) in H. discriminate.
+  rewrite (oversample_exact_eq _ _ _ Hcc) in H.
   inversion H; subst out; clear H.
   pose proof (count_of_cls_pos classes i Hi). pose proof (count_le_mxc classes _ _ Hc).
   split. apply Z.div_le_lower_bound; lia.
-  rewrite occ_cntf, (cntf_blocks_single _ _ _ (cls classes i)), <- occ_cntf; auto.
+  rewrite occ_cntf, cntf_app, <- (occ_cntf i (positions _ _)), occ_positions.
+  destruct (Z.eqb_spec (cls classes i) (-1)). lia. rewrite andb_false_r, Z.add_0_r.
+  rewrite (cntf_blocks_single _ _ _ (cls classes i)), <- occ_cntf; auto.
   - apply occ_exact_block_val_own; auto. apply zmax_nonneg.
   - intros c Hcr Hne. rewrite <- occ_cntf. apply occ_exact_block_val_other. congruence.
 Qed.
@@ -950,9 +1032,10 @@ Qed.
 (* ------------------------------------------------------------------ *)
 (* IntraClassShuffleWrapper                                            *)
 (* ------------------------------------------------------------------ *)
-(* generator contract: rng.permutation(x) is a permutation of x, one call per class 0..C-1 *)
+(* generator contract: rng.permutation(x) is a permutation of x; one call per class 0..C-1, then
+   one for the unlabeled samples *)
 Definition intra_draws_ok (classes : list Z) (C : Z) (draws : list (list Z)) : Prop :=
-  Forall2 (fun c d => Permutation d (positions c classes)) (zrange 0 C) draws.
+  Forall2 (fun c d => Permutation d (positions c classes)) (zrange 0 C ++ [-1]) draws.
 
 Lemma length_set_nth {A} k (y : A) l : length (set_nth k y l) = length l.
 Proof. revert k. induction l; intros; destruct k; simpl; auto. Qed.
@@ -1033,29 +1116,102 @@ Proof. induction 1; simpl. constructor. now apply Permutation_app. Qed.
 Lemma Forall2_map_eq {A B} (f : A -> B) out l : Forall2 (fun o c => f o = c) out l -> map f out = l.
 Proof. induction 1; simpl; congruence. Qed.
 
+Lemma Forall2_map_r {A B D} (R : A -> D -> Prop) (f : B -> D) l1 l2 :
+  Forall2 R l1 (map f l2) -> Forall2 (fun a b => R a (f b)) l1 l2.
+Proof. revert l1. induction l2; intros l1 H; inversion H; subst; constructor; auto. Qed.
+
+Lemma Forall2_impl_in {A B} (R R' : A -> B -> Prop) l1 l2 :
+  Forall2 R l1 l2 -> (forall x y, In x l1 -> In y l2 -> R x y -> R' x y) -> Forall2 R' l1 l2.
+Proof.
+  induction 1; intros HI; constructor. apply HI; simpl; auto.
+  apply IHForall2. intros. apply HI; simpl; auto.
+Qed.
+
+(* the dict keys 0 .. C-1, -1 and their positions 0 .. C *)
+Lemma slot_inj C a b : 0 <= C -> -1 <= a < C -> -1 <= b < C -> slot C a = slot C b -> a = b.
+Proof.
+  unfold slot. intros.
+  destruct (Z.eqb_spec a (-1)), (Z.eqb_spec b (-1)), (Z.leb_spec 0 a), (Z.ltb_spec a C),
+    (Z.leb_spec 0 b), (Z.ltb_spec b C); simpl in *; lia.
+Qed.
+
+Lemma slot_range C c : 0 <= C -> -1 <= c < C -> 0 <= slot C c <= C.
+Proof.
+  unfold slot. intros. destruct (Z.eqb_spec c (-1)), (Z.leb_spec 0 c), (Z.ltb_spec c C); simpl; lia.
+Qed.
+
+Lemma slot_key C k : 0 <= C -> 0 <= k <= C -> slot C (if k =? C then -1 else k) = k.
+Proof.
+  unfold slot. intros. destruct (Z.eqb_spec k C). simpl. lia.
+  destruct (Z.eqb_spec k (-1)), (Z.leb_spec 0 k), (Z.ltb_spec k C); simpl; lia.
+Qed.
+
+Lemma slot_valid C c : 0 <= C -> -1 <= c < C -> slot C c = if c =? -1 then C else c.
+Proof.
+  unfold slot. intros. destruct (Z.eqb_spec c (-1)). lia.
+  destruct (Z.leb_spec 0 c), (Z.ltb_spec c C); cbn [andb]; lia.
+Qed.
+
+Lemma count_of_map_slot classes C k : 0 <= C -> labels_in_u classes C -> 0 <= k <= C ->
+  count_of k (map (slot C) classes) = count_of (if k =? C then -1 else k) classes.
+Proof.
+  intros HC Hl Hk. induction classes as [|c r IH]. reflexivity.
+  assert (Hc : -1 <= c < C) by (inversion Hl; assumption).
+  assert (Hr : labels_in_u r C) by (inversion Hl; assumption).
+  cbn [map]. rewrite !count_of_cons, (IH Hr), (slot_valid C c HC Hc). f_equal.
+  destruct (Z.eqb_spec c (-1)), (Z.eqb_spec k C);
+    repeat match goal with |- context [?a =? ?b] => destruct (Z.eqb_spec a b) end; lia.
+Qed.
+
+Lemma nth_keys C k : 0 <= C -> (k <= Z.to_nat C)%nat ->
+  nth k (zrange 0 C ++ [-1]) 0 = if Z.of_nat k =? C then -1 else Z.of_nat k.
+Proof.
+  intros HC Hk. destruct (Z.eqb_spec (Z.of_nat k) C).
+  - rewrite app_nth2 by (rewrite zrange_length; lia). rewrite zrange_length.
+    replace (k - Z.to_nat (C - 0))%nat with 0%nat by lia. reflexivity.
+  - rewrite app_nth1 by (rewrite zrange_length; lia). rewrite zrange_nth by (rewrite zrange_length; lia). lia.
+Qed.
+
 Lemma intra_class_l classes C draws :
-  labels_in classes C -> intra_draws_ok classes C draws ->
+  labels_in_u classes C -> intra_draws_ok classes C draws ->
   exists out, intra_class_shuffle classes C draws = Some out /\
               Permutation out (all_ids classes) /\ map (cls classes) out = classes.
 Proof.
-  intros Hl Hd. unfold intra_class_shuffle.
-  pose proof (Forall2_length _ _ _ Hd) as Hlen. rewrite zrange_length in Hlen.
-  replace (Z.to_nat (C - 0)) with (Z.to_nat C) in Hlen by lia.
-  rewrite <- Hlen, Nat.eqb_refl. cbn [negb].
-  destruct (intra_go_ok (fun c o => cls classes o = c) classes draws) as (out & Ho & Hp & Hf).
-  - intros c Hc. unfold labels_in in Hl. rewrite Forall_forall in Hl. specialize (Hl c Hc). unfold zlen. lia.
-  - intros k Hk. pose proof (Forall2_nth _ _ _ 0 [] Hd k) as Hn. rewrite zrange_length in Hn.
-    specialize (Hn ltac:(lia)). cbv beta in Hn. rewrite zrange_nth in Hn by (rewrite zrange_length; lia).
-    apply Permutation_length in Hn. unfold zlen. rewrite Hn, length_positions.
-    pose proof (count_of_nonneg (0 + Z.of_nat k) classes). simpl in *. lia.
+  intros Hl Hd. destruct (Z.ltb_spec C 0) as [HC|HC].
+  { (* no class, hence no sample *)
+    rewrite (labels_in_u_neg _ _ Hl HC) in *. unfold intra_draws_ok in Hd. rewrite zrange_nil in Hd by lia.
+    simpl in Hd. inversion Hd as [|? d ? ds Hp Hr]; subst. inversion Hr; subst.
+    unfold intra_class_shuffle. replace (Z.to_nat C) with 0%nat by lia. simpl. exists [].
+    split. reflexivity. split. apply Permutation_refl. reflexivity. }
+  unfold intra_class_shuffle.
+  pose proof (Forall2_length _ _ _ Hd) as Hlen. rewrite app_length, zrange_length in Hlen. simpl in Hlen.
+  assert (Hlen' : length draws = S (Z.to_nat C)) by lia.
+  rewrite Hlen', Nat.eqb_refl. cbn [negb].
+  assert (Hkey : forall k, (k < length draws)%nat ->
+            Permutation (nth k draws []) (positions (if Z.of_nat k =? C then -1 else Z.of_nat k) classes)).
+  { intros k Hk. pose proof (Forall2_nth _ _ _ 0 [] Hd k) as Hn. rewrite app_length, zrange_length in Hn. simpl in Hn.
+    specialize (Hn ltac:(lia)). cbv beta in Hn. rewrite nth_keys in Hn by lia. exact Hn. }
+  destruct (intra_go_ok (fun c o => slot C (cls classes o) = c) (map (slot C) classes) draws) as (out & Ho & Hp & Hf).
+  - intros c Hc. apply in_map_iff in Hc. destruct Hc as (c0 & <- & Hc0).
+    unfold labels_in_u in Hl. rewrite Forall_forall in Hl. specialize (Hl c0 Hc0).
+    pose proof (slot_range C c0 HC Hl). unfold zlen. lia.
+  - intros k Hk. rewrite count_of_map_slot by (auto; lia).
+    pose proof (Hkey k Hk) as Hn. apply Permutation_length in Hn. unfold zlen. rewrite Hn, length_positions.
+    pose proof (count_of_nonneg (if Z.of_nat k =? C then -1 else Z.of_nat k) classes). lia.
   - intros k x Hx. destruct (Nat.lt_ge_cases k (length draws)).
-    + pose proof (Forall2_nth _ _ _ 0 [] Hd k) as Hn. rewrite zrange_length in Hn.
-      specialize (Hn ltac:(lia)). cbv beta in Hn. rewrite zrange_nth in Hn by (rewrite zrange_length; lia).
-      eapply Permutation_in in Hx; eauto. apply In_positions in Hx. simpl in Hx. lia.
+    + eapply Permutation_in in Hx; [|apply Hkey; auto]. apply In_positions in Hx. destruct Hx as (_ & ->).
+      apply slot_key; lia.
     + rewrite nth_overflow in Hx by lia. destruct Hx.
-  - exists out. split. assumption. split.
-    + etransitivity. apply Hp. etransitivity. apply Forall2_perm_concat, Hd. apply (blocks_perm classes C Hl).
-    + now apply Forall2_map_eq.
+  - exists out. split. assumption.
+    assert (Hperm : Permutation out (all_ids classes)).
+    { etransitivity. apply Hp. etransitivity. apply Forall2_perm_concat, Hd.
+      rewrite map_app, concat_app. simpl. rewrite app_nil_r. fold (blocks classes C).
+      etransitivity. apply Permutation_app_comm. now apply blocks_u_perm. }
+    split. assumption.
+    apply Forall2_map_eq. apply Forall2_map_r in Hf. eapply Forall2_impl_in. exact Hf.
+    cbv beta. intros o c Ho' Hc' E. apply (slot_inj C); auto.
+    + apply labels_in_u_cls; auto. eapply Permutation_in in Ho'; [|exact Hperm]. now apply In_zrange in Ho'.
+    + unfold labels_in_u in Hl. rewrite Forall_forall in Hl. auto.
 Qed.
 
 (* ------------------------------------------------------------------ *)
@@ -1267,7 +1423,7 @@ Definition classwise_val (classes : list Z) (C : Z) (lo hi : Z -> Z) : list Z :=
   concat (map (fun c => slice (positions c classes) (lo (count_of c classes)) (hi (count_of c classes))) (zrange 0 C)).
 
 Lemma classwise_range_eq classes C s e check :
-  labels_in classes (n_classes_eff C) -> is_some s || is_some e = true ->
+  labels_in_u classes (n_classes_eff C) -> is_some s || is_some e = true ->
   let n := zlen classes in
   let e' := Z.min (odflt e n) n in
   let s' := odflt s 0 in
@@ -1276,7 +1432,7 @@ Lemma classwise_range_eq classes C s e check :
   if check && existsb (fun c => count_of c classes <? e') (zrange 0 C) then None
   else Some (classwise_val classes C (fun _ => s') (fun _ => e')).
 Proof.
-  intros Hl Hse n e' s' Hb. unfold classwise_range. rewrite (class_counts_some _ _ Hl), Hse.
+  intros Hl Hse n e' s' Hb. unfold classwise_range. rewrite (class_counts_some_u _ _ Hl), Hse.
   cbn [negb]. fold n. fold e'. fold s'. destruct (Z.leb_spec s' e'); [|lia]. cbn [negb].
   destruct (check && existsb (fun c => count_of c classes <? e') (zrange 0 C)) eqn:E.
   - apply andb_prop in E. destruct E as (-> & E). apply existsb_exists in E. destruct E as (c & Hc & E).
@@ -1293,14 +1449,14 @@ Proof.
 Qed.
 
 Lemma classwise_percent_eq {P} (O : pct_ops P) classes C s e :
-  labels_in classes (n_classes_eff C) -> is_some s || is_some e = true ->
+  labels_in_u classes (n_classes_eff C) -> is_some s || is_some e = true ->
   p_ok O (odflt s (p_zero O)) = true -> p_ok O (odflt e (p_one O)) = true ->
   p_leb O (odflt s (p_zero O)) (odflt e (p_one O)) = true ->
   classwise_percent_g O classes C s e =
   Some (classwise_val classes C (p_cut O false (odflt s (p_zero O))) (p_cut O false (odflt e (p_one O)))).
 Proof.
   intros Hl Hse Hs He Hle. unfold classwise_percent_g.
-  rewrite (class_counts_some _ _ Hl), Hse, Hs, He, Hle. reflexivity.
+  rewrite (class_counts_some_u _ _ Hl), Hse, Hs, He, Hle. reflexivity.
 Qed.
 
 Lemma classwise_val_class_occ classes C lo hi c :
@@ -1349,7 +1505,7 @@ Lemma classwise_range_partition classes C k :
               classwise_range classes C (Some k) None false = Some B /\
               Permutation (A ++ B) (all_ids classes).
 Proof.
-  intros Hl Hl' Hk.
+  intros Hl Hl' Hk. pose proof (labels_in_u_of _ _ Hl') as Hlu.
   rewrite !classwise_range_eq; auto; cbn [odflt andb]; try lia.
   do 2 eexists. split. reflexivity. split. reflexivity.
   replace (Z.min k (zlen classes)) with k by lia. replace (Z.min (zlen classes) (zlen classes)) with (zlen classes) by lia.
@@ -1366,7 +1522,7 @@ Lemma classwise_percent_partition {P} (O : pct_ops P) classes C p :
               classwise_percent_g O classes C (Some p) None = Some B /\
               Permutation (A ++ B) (all_ids classes).
 Proof.
-  intros Hl Hl' Hcut Hp. destruct (Hcut 0 ltac:(lia)) as (Hz & Ho & Hle & _).
+  intros Hl Hl' Hcut Hp. pose proof (labels_in_u_of _ _ Hl') as Hlu. destruct (Hcut 0 ltac:(lia)) as (Hz & Ho & Hle & _).
   rewrite !classwise_percent_eq; auto; cbn [odflt]; auto; try apply Hle; auto.
   do 2 eexists. split. reflexivity. split. reflexivity.
   etransitivity; [|apply (classwise_val_partition classes C (p_cut O false p) Hl)].
@@ -1382,11 +1538,32 @@ Lemma run_function {P} (O : pct_ops P) classes C w o1 o2 :
   run_g O classes C w = o1 -> run_g O classes C w = o2 -> o1 = o2.
 Proof. congruence. Qed.
 
+(* an unlabeled sample belongs to no class: it is never oversampled, and never dropped *)
+Lemma oversample_unlabeled_once ex classes C out i :
+  oversample ex classes C = Some out -> 0 <= i < zlen classes -> cls classes i = -1 -> occ i out = 1.
+Proof.
+  intros H Hi Hu. destruct (oversample_some_counts _ _ _ _ H) as (counts & Hcc). destruct ex.
+  - rewrite (oversample_exact_eq _ _ _ Hcc) in H. inversion H; subst out; clear H.
+    rewrite occ_cntf, cntf_app, <- (occ_cntf i (positions _ _)), occ_positions, Hu.
+    rewrite cntf_concat_map_zero.
+    + destruct (Z.leb_spec 0 i), (Z.ltb_spec i (zlen classes)); simpl; lia.
+    + intros c Hc. apply In_zrange in Hc. rewrite <- occ_cntf. apply occ_exact_block_val_other. lia.
+  - rewrite (oversample_multiply_eq _ _ _ Hcc) in H. inversion H; subst out; clear H.
+    rewrite occ_cntf, cntf_app, <- (occ_cntf i (all_ids _)). unfold all_ids at 1. rewrite occ_zrange.
+    unfold mult_blocks. rewrite cntf_concat_map_zero.
+    + destruct (Z.leb_spec 0 i), (Z.ltb_spec i (zlen classes)); simpl; lia.
+    + intros c Hc. apply In_zrange in Hc. rewrite <- occ_cntf, occ_multiply_block.
+      destruct (Z.eqb_spec (cls classes i) c). lia. now rewrite andb_false_r.
+Qed.
+
 Lemma oversample_keeps_all_l ex classes C out i :
-  oversample ex classes C = Some out -> labels_in classes (n_classes_eff C) ->
+  oversample ex classes C = Some out -> labels_in_u classes (n_classes_eff C) ->
   0 <= i < zlen classes -> 1 <= occ i out.
 Proof.
-  intros H Hl Hi. pose proof (labels_in_cls _ _ _ Hl Hi) as Hc. destruct ex.
+  intros H Hl Hi. pose proof (labels_in_u_cls _ _ _ Hl Hi) as Hc'.
+  destruct (Z.eq_dec (cls classes i) (-1)) as [Hu|Hu].
+  { rewrite (oversample_unlabeled_once _ _ _ _ _ H Hi Hu). lia. }
+  assert (Hc : 0 <= cls classes i < n_classes_eff C) by lia. clear Hc'. destruct ex.
   - pose proof (oversample_exact_occ _ _ _ _ H Hi Hc). cbv zeta in *. lia.
   - rewrite (oversample_multiply_occ _ _ _ _ H Hi Hc).
     pose proof (count_of_cls_pos classes i Hi). pose proof (count_le_mxc classes _ _ Hc).
@@ -1467,10 +1644,10 @@ Proof.
 Qed.
 
 Lemma stable_sort_unique classes C out :
-  labels_in classes C -> Permutation out (all_ids classes) -> StronglySorted (before classes) out ->
+  labels_in_u classes C -> Permutation out (all_ids classes) -> StronglySorted (before classes) out ->
   out = sort_by_class classes C.
 Proof.
-  intros Hl Hp Hs. destruct (sort_by_class_l classes C Hl) as (Hp' & Hs').
+  intros Hl Hp Hs. destruct (sort_by_class_u_l classes C Hl) as (Hp' & Hs').
   apply (sorted_perm_unique (before classes)); auto.
   - apply before_irrefl.
   - unfold before. intros. lia.
@@ -1491,6 +1668,98 @@ Proof.
     + split. apply Z.div_pos; lia.
       assert ((a * n + b - 1) / b < n + 1) by (apply Z.div_lt_upper_bound; nia). lia.
     + split. apply Z.div_pos; lia. apply Z.div_le_upper_bound; nia.
+Qed.
+
+(* monotonicity of the percent -> index map, and floor <= ceil: what makes `assert p <= q` enough for a
+   well-formed range.  Proved for exact fractions; for binary64 evaluated per case (Check.float_mono_ok). *)
+Definition pct_mono {P} (O : pct_ops P) (n : Z) : Prop :=
+  (forall c p q, p_ok O p = true -> p_ok O q = true -> p_leb O p q = true -> p_cut O c p n <= p_cut O c q n) /\
+  (forall p, p_ok O p = true -> p_cut O false p n <= p_cut O true p n).
+
+Lemma rat_ops_mono n : 0 <= n -> pct_mono rat_ops n.
+Proof.
+  intros Hn. unfold pct_mono. cbn [rat_ops p_ok p_leb p_cut]. split.
+  - intros c (a, b) (a', b') Hp Hq Hle.
+    assert (Hb : 0 < b) by lia. assert (Hb' : 0 < b') by lia. assert (Hab : a * b' <= a' * b) by lia.
+    assert (Ha : 0 <= a) by lia. assert (Ha' : 0 <= a') by lia. clear Hp Hq Hle.
+    destruct c.
+    + (* ceil *)
+      set (y := (a' * n + b' - 1) / b').
+      assert (Hy : a' * n <= b' * y).
+      { pose proof (Z.div_mod (a' * n + b' - 1) b' ltac:(lia)). pose proof (Z.mod_pos_bound (a' * n + b' - 1) b' Hb').
+        fold y in H. lia. }
+      assert (Hy' : a * n <= b * y).
+      { apply (Z.mul_le_mono_pos_l _ _ b'); [lia|]. 
+        assert (b' * (a * n) <= b * (a' * n)) by nia. assert (b * (a' * n) <= b * (b' * y)) by nia. lia. }
+      assert ((a * n + b - 1) / b < y + 1) by (apply Z.div_lt_upper_bound; lia). lia.
+    + (* floor *)
+      set (x := a * n / b).
+      assert (Hx : b * x <= a * n) by (apply Z.mul_div_le; lia).
+      apply Z.div_le_lower_bound. lia.
+      apply (Z.mul_le_mono_pos_l _ _ b); [lia|].
+      assert (b * (b' * x) <= b' * (a * n)) by nia. assert (b' * (a * n) <= b * (a' * n)) by nia. lia.
+  - intros (a, b) Hp. apply Z.div_le_mono; lia.
+Qed.
+
+(* with a monotone cut the assertion p <= q alone makes the three ranges a partition *)
+Lemma subset_percent_partition_mono {P} (O : pct_ops P) n p q :
+  pct_contract O n -> pct_mono O n -> p_ok O p = true -> p_ok O q = true -> p_leb O p q = true ->
+  exists A B D,
+    subset_percent_g O n None (Some p) = Some A /\
+    subset_percent_g O n (Some p) (Some q) = Some B /\
+    subset_percent_g O n (Some q) None = Some D /\
+    A ++ B ++ D = zrange 0 n.
+Proof.
+  intros Hc (Hm & _) Hp Hq Hle. apply subset_percent_partition; auto.
+Qed.
+
+Lemma percent_filter_partition_mono {P} (O : pct_ops P) n p q c1 c2 :
+  pct_contract O n -> pct_mono O n -> p_ok O p = true -> p_ok O q = true -> p_leb O p q = true ->
+  implb c1 c2 = true ->
+  exists A B D,
+    percent_filter_g O n None (Some p) false c1 = Some A /\
+    percent_filter_g O n (Some p) (Some q) c1 c2 = Some B /\
+    percent_filter_g O n (Some q) None c2 false = Some D /\
+    A ++ B ++ D = zrange 0 n.
+Proof.
+  intros Hc (Hm & Hfc) Hp Hq Hle Hi. apply percent_filter_partition; auto.
+  destruct c1, c2; try discriminate; try (now apply Hm).
+  etransitivity. apply (Hm false p q); auto. now apply Hfc.
+Qed.
+
+Lemma subset_percent_partition_rat n p q :
+  0 <= n -> p_ok rat_ops p = true -> p_ok rat_ops q = true -> p_leb rat_ops p q = true ->
+  exists A B D,
+    subset_percent_g rat_ops n None (Some p) = Some A /\
+    subset_percent_g rat_ops n (Some p) (Some q) = Some B /\
+    subset_percent_g rat_ops n (Some q) None = Some D /\
+    A ++ B ++ D = zrange 0 n.
+Proof.
+  intros. apply subset_percent_partition_mono; auto. now apply rat_ops_contract. now apply rat_ops_mono.
+Qed.
+
+(* the executable few-shot predicate of Spec.v holds of the model's selection *)
+Lemma class_sorted_of classes out :
+  StronglySorted (fun i j => cls classes i <= cls classes j) out -> class_sorted classes out = true.
+Proof.
+  induction 1 as [|a l Hs IH Hf]. reflexivity.
+  destruct l as [|z l]. reflexivity.
+  change (class_sorted classes (a :: z :: l)) with ((cls classes a <=? cls classes z) && class_sorted classes (z :: l)).
+  inversion Hf; subst. apply andb_true_intro. split. lia. exact IH.
+Qed.
+
+Lemma fewshot_spec_bool classes shots draws out :
+  classes <> [] -> 0 <= shots -> fewshot_draws_ok classes draws -> fewshot classes shots draws = Some out ->
+  fewshot_ok classes shots out = true.
+Proof.
+  intros Hne Hs Hd Ho. destruct (fewshot_l _ _ _ Hne Hs Hd) as (out' & Ho' & Hnd & Hin & Hsort & Hocc & _).
+  rewrite Ho in Ho'. inversion Ho'; subst out'. unfold fewshot_ok.
+  change (zmax (map (fun c => c + 1) classes)) with (fewshot_nc classes).
+  apply andb_true_intro; split; [apply andb_true_intro; split; [apply andb_true_intro; split|]|].
+  - apply forallb_forall. intros i Hi. specialize (Hin i Hi). lia.
+  - apply forallb_forall. intros i Hi. rewrite (occ_nodup _ _ Hnd). destruct (in_dec _ _ _); reflexivity.
+  - now apply class_sorted_of.
+  - apply forallb_forall. intros c Hc. apply In_zrange in Hc. rewrite (Hocc c Hc). apply Z.eqb_refl.
 Qed.
 
 (* ------------------------------------------------------------------ *)
@@ -1539,7 +1808,7 @@ Proof.
 Qed.
 
 Lemma classwise_counts_l : forall classes C s e check,
-    labels_in classes (n_classes_eff C) -> is_some s || is_some e = true ->
+    labels_in_u classes (n_classes_eff C) -> is_some s || is_some e = true ->
     let n := zlen classes in
     let e' := Z.min (odflt e n) n in
     let s' := odflt s 0 in
@@ -1562,22 +1831,33 @@ Qed.
 Lemma labels_in_b classes C : forallb (fun c => (0 <=? c) && (c <? C)) classes = true -> labels_in classes C.
 Proof. intros H. apply Forall_forall. intros x Hx. rewrite forallb_forall in H. specialize (H x Hx). lia. Qed.
 
+Lemma labels_in_u_b classes C : forallb (fun c => (-1 <=? c) && (c <? C)) classes = true -> labels_in_u classes C.
+Proof. intros H. apply Forall_forall. intros x Hx. rewrite forallb_forall in H. specialize (H x Hx). cbv beta in *. lia. Qed.
+
 (* ------------------------------------------------------------------ *)
 (* model output satisfies the executable predicates of Spec.v          *)
 (* ------------------------------------------------------------------ *)
 Lemma sort_spec_bool classes C :
-  labels_in classes C ->
+  labels_in_u classes C ->
   is_permutation classes (sort_by_class classes C) && sorted_stable classes (sort_by_class classes C) = true.
 Proof.
-  intros H. destruct (sort_by_class_l _ _ H). apply andb_true_intro. split.
+  intros H. destruct (sort_by_class_u_l _ _ H). apply andb_true_intro. split.
   now apply is_permutation_iff. now apply sorted_stable_iff.
 Qed.
 
 Lemma keeps_all_bool ex classes C out :
-  oversample ex classes C = Some out -> labels_in classes (n_classes_eff C) -> keeps_all classes out = true.
+  oversample ex classes C = Some out -> labels_in_u classes (n_classes_eff C) -> keeps_all classes out = true.
 Proof.
   intros H Hl. unfold keeps_all. apply forallb_forall. intros i Hi. apply In_zrange in Hi.
   pose proof (oversample_keeps_all_l _ _ _ _ i H Hl Hi). lia.
+Qed.
+
+Lemma unlabeled_once_bool ex classes C out :
+  oversample ex classes C = Some out -> unlabeled_once classes out = true.
+Proof.
+  intros H. unfold unlabeled_once. apply forallb_forall. intros i Hi. apply In_zrange in Hi.
+  destruct (Z.eqb_spec (cls classes i) (-1)); auto.
+  rewrite (oversample_unlabeled_once _ _ _ _ _ H Hi e). reflexivity.
 Qed.
 
 Lemma balanced_multiply_bool classes C out :
@@ -1611,7 +1891,7 @@ Proof.
 Qed.
 
 Lemma intra_spec_bool classes C draws out :
-  labels_in classes C -> intra_draws_ok classes C draws -> intra_class_shuffle classes C draws = Some out ->
+  labels_in_u classes C -> intra_draws_ok classes C draws -> intra_class_shuffle classes C draws = Some out ->
   is_permutation classes out && list_eqb (map (cls classes) out) classes = true.
 Proof.
   intros Hl Hd Ho. destruct (intra_class_l _ _ _ Hl Hd) as (out' & Ho' & Hp & Hm).
